@@ -605,3 +605,26 @@ def r10(rr, repo, balanced=True):
 def r11(rr, repo):
     from .c02 import r7 as c02r7
     c02r7(rr, repo)
+
+
+@rule('C04.R12', "a relay waits for its consumer by default: the time Filter.loop_once spends trying to hand a frame set to its outputs is unbounded unless the user configured outputs_timeout - a finite default (say, "
+                 "the sources_timeout) makes a relay drop the frame and fetch the next one from ITS source, which then publishes a further frame per timeout for as long as the consumer stalls")
+def r12(rr, repo):
+    FIL = 'openfilter/filter_runtime/filter.py'
+    mod, init = repo.find(f'{FIL}::Filter.init')
+    sets = [n for n in walk_scope(init) if isinstance(n, ast.Assign) and U(n.targets[0]) == 'self.outputs_timeout']
+    rr.floor('initialisations of the outputs timeout', len(sets), 1, mod, init)
+    for n in sets:
+        v = n.value
+        if isinstance(v, ast.IfExp) and 'is None' in U(v.test) and 'outputs_timeout' in U(v.test):
+            dflt = v.body
+        elif isinstance(v, ast.IfExp) and 'is not None' in U(v.test) and 'outputs_timeout' in U(v.test):
+            dflt = v.orelse
+        else:
+            rr.unresolved('how the outputs timeout gets its default was not recognised', mod, n, witness=U(v)[:100], key='outputs-timeout-default')
+            continue
+        inf = U(dflt).replace('"', "'") in ("float('inf')", 'math.inf', 'inf', 'None')
+        rr.ob('without an explicit outputs_timeout the wait for the outputs is unbounded', inf, mod, n, witness=f'default: {U(dflt)}', key='outputs-timeout-default')
+    _, lo = repo.find(f'{FIL}::Filter.loop_once')
+    loc = [n for n in walk_scope(lo) if isinstance(n, ast.Assign) and U(n.targets[0]) == 'outputs_timeout']
+    rr.ob('loop_once takes its send budget from that value', bool(loc) and all(U(n.value) == 'self.outputs_timeout' for n in loc), mod, loc[0] if loc else lo, witness=U(loc[0])[:60] if loc else 'no local', key='outputs-timeout-used')
